@@ -63,7 +63,14 @@ _LABEL_KINDS = ['str', 'int', 'negint', 'float', 'IndexDate', 'hier2', 'auto']
 
 
 def probes(ctx):
-    return []
+    return [
+        {'t': 'series_op', 'kind': 'str', 'la': ['a', 'b'], 'lb': ['b', 'c'], 'rel': 'overlap', 'da': '<U2', 'db': '<U2', 'op': 'add',
+         'va': ['a', 'b'], 'vb': ['a', 'zz'], 'perm_seed': 1},
+    ] + [
+        {'t': 'frame_op', 'rk': 'auto', 'ck': 'str', 'ra': [0], 'rb': [0], 'ca': ['a', 'b', 'c'], 'cb': ['a', 'b', 'c'], 'rrel': 'identical', 'crel': 'identical',
+         'dta': ['float64', 'int64', 'int64'], 'dtb': ['float64', 'float64', 'int64'], 'op': 'floordiv',
+         'cells_a': [[4.0, -2, 2]], 'cells_b': [[10.0, -3.75, 1]], 'lay_seed': ls, 'perm_seed': 1} for ls in range(6)
+    ]
 
 
 def _vals(dt, n, rng):
